@@ -3,6 +3,7 @@ package calcgen
 import (
 	"fmt"
 	"math/rand"
+	"os"
 
 	"github.com/projectcalico/calico/felix/calc"
 	"github.com/projectcalico/calico/libcalico-go/lib/backend/api"
@@ -125,5 +126,12 @@ func (sc *Scenario) Witness() map[string]any {
 		"flush_strategy": sc.H.FlushStrategy,
 		"final_state":    sc.U.DescribeState(sc.H.Final),
 		"history":        ops,
+	}
+}
+
+// Debugf prints to stderr when VERIF_DEBUG is set (development aid; never used for verdicts).
+func Debugf(format string, args ...any) {
+	if os.Getenv("VERIF_DEBUG") != "" {
+		fmt.Fprintf(os.Stderr, "DEBUG "+format+"\n", args...)
 	}
 }
